@@ -1504,6 +1504,19 @@ func (s *fxStack) Grow(level int) {
 	}
 }
 
+// PARAMMUT control: the coefficients of the shared parameters are scaled in place through a struct copy
+type fxPolyParameters struct{ Coeffs []*big.Float }
+
+type fxPolyEval struct{ fxPolyParameters }
+
+func (e fxPolyEval) Scaled(s *big.Float) []*big.Float {
+	p := e.fxPolyParameters
+	for i := range p.Coeffs {
+		p.Coeffs[i].Mul(p.Coeffs[i], s)
+	}
+	return p.Coeffs
+}
+
 `
 
 // control runs scan over the fixture and demands a violation whose key contains each of the wanted substrings.
